@@ -48,7 +48,7 @@ claimed = {
         "breaks); marks are never removed and nothing else is written (frame); the returned list is exactly the unmarked nonterminals of VnSet, so generation is "
         "refused iff some nonterminal is unproductive.",
    note=TB + "That closed + justified-at-marking-time implies LEAST fixpoint is the standard ranking argument, stated not mechanised. Termination of the fixpoint loops is "
-        "not proved. NOT under contract: the undefined-symbol panic in RuleVistor.Process, the nonterminal-without-rule check and the 2000-state limit in BuildLALR1.",
+        "not proved. Also proved: RuleVistor.Process appends a right-hand-side symbol only if it is in the identifier table and otherwise stops with the panic `It's not define symbol` (may_panic contract). NOT under contract: the nonterminal-without-rule check and the 2000-state limit in BuildLALR1.",
    design="§5 C12", technique="contract-based deductive verification (loop invariants + statement-level assertions)"),
  "C17": dict(
    text=DRV + "C17: fmt.Printf is modelled by a ghost output log. TraceShift is proved to log exactly (name of the pushed symbol, pushed state); PushStateSym logs exactly "
@@ -87,17 +87,28 @@ claimed = {
         "(b) astDeclareVistor.Process keeps idMaxValue above every value in the identifier table through all declaration loops, keeps explicit values, and "
         "hands out automatic codes that are above the old maximum (hence different from explicit / literal codes and from -1) and pairwise different, "
         "(c) both builders emit `const NAME = Value` from the table entry of a terminal.",
-   note=TB + "Trusted contracts: parser.next/backup/expect (token cursor; a character token has a non-empty lexeme), SortedIdNames (returns the keys), "
+   note=TB + "The token cursor parser.next/backup/expect is verified (C13); assumed at the receive site: a character token has a non-empty lexeme. Trusted contracts: SortedIdNames (returns the keys), "
         "utf8.DecodeRuneInString. Interior pointers &IdentifyList[i] are modelled as fresh objects holding a copy (the slice element is never read again). "
         "Not yet under contract: the copy of the values into grammar symbols (BuildLALR1) and the translate switch (buildTranslate).",
    design="§5 C11", technique="contract-based deductive verification (govc VC generator + SMT)"),
  "C13": dict(
-   text="The closed-channel step of the lexer/parser protocol is proved: (*lexer).nextToken returns the k-th token sent while the channel is open and an EOF "
-        "token once the lexer has closed it (the check found that it returned a zero Token, on which no parser loop stops: `%start` hung; fixed). Termination of "
-        "the whole parse is covered by a BOUNDED stand-in only: every input of up to 3 fragments from a 14-fragment alphabet is parsed under a watchdog.",
-   note=TB + "Assumption A-seq (unbuffered channel, one sender, one receiver). NOT proved deductively: the decreases measures of the parser loops and of the lexer's "
-        "scanning loops and state machine (bounded stand-in: 2954 inputs); the lexer's unterminated-comment loop never exits but blocks on its send once the parser stops.",
-   design="§5 C13, Appendix A.5", technique="contract-based deductive verification of the channel-receive step + bounded run-time stand-in for loop termination"),
+   text="Deductive termination proof of generation's front end, on the real code, function by function. Lexer: every scanning loop of every state function and "
+        "of acceptRun / acceptOnlyAlphaWord / acceptWord has a proved `decreases` measure (input left, plus an end-of-input flag where the loop reads one rune ahead); "
+        "every state function is proved to return a state that either consumed input or has lower rank (comment 0 < root 1 < scanning 2 < directive 3), so (*lexer).run's "
+        "loop is proved to terminate with the lexicographic measure (input left, rank) by a case split over the function values. This found that a non-ASCII Unicode digit "
+        "made rootState return itself without consuming anything (generation hung on the one-character input U+0663; fixed). Channel step: nextToken returns the k-th token "
+        "sent while the channel is open and an EOF token once it is closed (found: it returned a zero Token on which no parser loop stops, `%start` hung; fixed). Parser: "
+        "the token cursor next/backup/backup2/expect is verified against a ghost count of fetched tokens (representation invariant of the 3-slot look-back buffer); "
+        "parseTokendef, parsePrecList, parseTypeList, parseStartSymbol, parseRule, parseDeclare and Parse's rule loop are proved to consume at least one token per "
+        "iteration and to stop on EOF / Section / Error, with measure `tokens left before the first EOF`.",
+   note=TB + "Hypotheses (axioms, not proved): STREAM - the token stream contains an EOF token at a finite position spec_E() and only EOF tokens after it (this is what run()'s "
+        "termination plus the closed-channel step deliver, but the link from the lexer's final emitEOF/close to the receive-side stream is assumption A-seq: unbuffered channel, "
+        "one sender, one receiver, goroutine verified as sequential code); TOK - every received token has 0 <= EndAt <= len(input) and a character token has a non-empty lexeme "
+        "(assumed at the receive site). Trusted: Lex (starts the goroutine), utf8.DecodeRuneInString / unicode.* / strings.HasPrefix as pure functions with their width facts. "
+        "KNOWN LIMIT, documented not proved: CommentState's unterminated-comment loop sends an error token per iteration and never exits by itself; it blocks on its send once the "
+        "parser has stopped reading (the goroutine leaks; generation terminates). The later phases (LR(0) worklist, fixpoints, Digraph) have no termination proof. A BOUNDED "
+        "stand-in (labelled bounded, not counted as proved) additionally parses every input of up to 3 fragments from an 18-fragment alphabet under a watchdog.",
+   design="§S.2 C13", technique="contract-based deductive verification (loop variants, state-machine rank, ghost token cursor) + bounded run-time stand-in for the unproved later phases"),
  "C14": dict(
    text="Every `range` over a map in the 100+ functions reachable from TemplateGenFromString / TsGenFromString (computed from the real call graph on every "
         "run) must be justified in a contract: swap commutation (body(k1);body(k2) and body(k2);body(k1) yield the same state, for every state and all "
@@ -166,9 +177,11 @@ claimed = {
         "precedence of its rule (%prec / last precedence symbol) or token, that each fold step over a cell applies precedence first and the yacc "
         "defaults otherwise, and that the surviving action is a candidate of that cell or an ERROR action. Contracts are transcribed from the "
         "property statement; obligations are generated from /repo's source on every run.",
-   note=TB + "Under contract: (*LALR1).ResolveConflict, UseDefaultResolveConflict, CheckAndResolveConflict. Not yet under contract: GenTable's "
-        "encoding of the surviving action and the attachment of precedence levels to symbols and rules in Parser/Vistor.go (astDeclareVistor.Process, "
-        "RuleVistor.Process, BuildLALR1). Reduce/reduce between two rules that both carry precedence is unspecified by C04 and left unconstrained.",
+   note=TB + "Under contract: (*LALR1).ResolveConflict, UseDefaultResolveConflict, CheckAndResolveConflict, GenTable's encoding of the surviving action (C01/C02), "
+        "and the attachment of precedence in Parser/Vistor.go: astDeclareVistor.Process gives the k-th %left/%right/%nonassoc line level (base)+k with that line's "
+        "associativity for each of its symbols (later lines bind tighter); RuleVistor.Process gives every rule the entry of its %prec symbol, else of the LAST right-hand-side "
+        "symbol that has one, else none. Not yet under contract: the copy of these entries onto grammar symbols / rules in BuildLALR1 (SetPrec). Reduce/reduce between two rules "
+        "that both carry precedence is unspecified by C04 and left unconstrained.",
    design="§5 C04", technique="contract-based deductive verification (govc VC generator + SMT)"),
 }
 
